@@ -1,12 +1,12 @@
 --------------------------- MODULE Trace_Multipart ---------------------------
-EXTENDS MultipartForm, Json, IOUtils, TLC, Sequences
+EXTENDS MultipartForm, Json, IOUtils, TLC, Sequences, TraceUtil
 Rec == ndJsonDeserialize(IOEnv.TRACE)
 VARIABLE l
 TraceInit == l = 1
 TraceNext ==
   /\ l <= Len(Rec)
   /\ l' = l + 1
-  /\ \A g \in MpViolations(Rec[l]) : PrintT(<<"VIOL", l, Rec[l].id, "C15", g>>)
+  /\ \A g \in MpViolations(Rec[l]) : Viol(l, Rec[l].id, "C15", g, "")
 TraceSpec == TraceInit /\ [][TraceNext]_l
 TraceAccepted ==
   LET d == TLCGet("stats").diameter IN
